@@ -42,6 +42,9 @@ func H_JSONRoundTrip() {
 	}
 	rtObserve("json", string(b))
 	var d expr.Expression
+	if rtParam("REUSE") == 1 { // the target has been used before: decoding replaces, it does not merge
+		_ = json.Unmarshal([]byte("{\"left\":\"p\",\"operator\":\"EQUALS\",\"right\":\"q\"}"), &d)
+	}
 	uerr := json.Unmarshal(b, &d)
 	rtAssert("decodes", uerr == nil)
 	if uerr != nil {
